@@ -47,3 +47,55 @@ def rule_reject_inventory(prog, res):
                    sample={"function": p, "rejections": dict(got)} if n <= 2 else None)
     if "all_msgs" in set(prog.crate["features"]):
         res.floor("D-rej", "decoder functions with a rejection", n, 136)
+
+
+ENC_EXPECTED = [
+    (re.compile(r"df::assembler::Assembler::put"), {"BufferOverflow": 1}, "write past the window (B-guard)"),
+    (re.compile(r"msg::message::MessageBuilder::build_message"), {"EncodingNotSupported": 1}, "message without a wire form (W-num)"),
+    (re.compile(r"msg::msg1\d{3}::msg1\d{3}_data::encode"),
+     {"InvalidSatelliteId": 2, "DuplicateSatellite": 1, "InvalidSignalId": 1, "SatelliteMismatch": 1, "DuplicateSatelliteSignal": 1, "InvalidSatelliteSignalCount": 1},
+     "the six documented MSM rejections (M-guards)"),
+    (re.compile(r"df::dfs::df_msg1059_biases::encode"), {"OutOfRange": 3}, "satellite id > 63, more than 63 satellites, more than 31 entries per satellite"),
+    (re.compile(r"df::dfs::df_msg1065_biases::encode"), {"OutOfRange": 2}, "satellite id > 31, more than 31 entries per satellite"),
+    (re.compile(r"df::dfs::df_msg1230_biases::encode"), {"InvalidSignalId": 1}, "signal other than 1C/1P/2C/2P"),
+    (re.compile(r"df::dfs::df_msg1029_utf8_str::encode"), {"BufferOverflow": 1}, "more than 127 characters / 255 bytes (X-lim)"),
+    (re.compile(r"df::dfs::df\w+::encode"), {"OutOfRange": 1}, "value below the field's bias (O-bias)"),
+]
+
+
+def rule_encode_reject_inventory(prog, res, only=None):
+    """E-rej: every direct refusal in the encode closure is one of the enumerated ones (an extra refusal would reject
+    a valid message: C10's first sentence, C15's 'every admissible length encodes', C16's 'or report an error' only for
+    unrepresentable input)."""
+    cl = panics.closure(prog, panics.ENC_ROOTS)
+    n = 0
+    for p in sorted(cl):
+        if not (p.startswith("msg::") or p.startswith("df::")):
+            continue
+        if only is not None and not only.search(p):
+            continue
+        f = prog.fns[p]
+        got = Counter()
+        fa = None
+        for b in sorted(f.reachable()):
+            for i, s in enumerate(f.blocks[b]["stmts"]):
+                if s["k"] == "assign" and s["place"]["local"] == 0 and not s["place"]["proj"] and s["rv"]["k"] == "aggregate" and s["rv"].get("vname") == "Err":
+                    if fa is None:
+                        fa = FA(f, prog)
+                    v = fa.rv_term(s["rv"], (b, i))
+                    var = v.args[3][0].args[2] if v.args[3] and v.args[3][0].op == "agg" else "?"
+                    got[var] += 1
+        want = {}
+        why = "no direct refusal expected in this function"
+        for rx, w, reason in ENC_EXPECTED:
+            if rx.fullmatch(p):
+                want, why = w, reason
+                break
+        if not got and want == {"OutOfRange": 1} and p.startswith("df::dfs::df"):
+            continue      # a field without a bias has no refusal at all (the generic df entry is an upper bound)
+        if got or want:
+            n += 1
+            res.ob("E-rej", "%s | direct refusals are exactly the enumerated ones" % p, dict(got) == want,
+                   "found %s, expected %s (%s)" % (dict(got), want, why), f.loc,
+                   sample={"function": p, "refusals": dict(got)} if n <= 2 else None)
+    return n
